@@ -27,6 +27,7 @@ class Report:
         self.prop = prop
         self.tier = tier
         self.instances = []
+        self._seen = {}
         self.rule_info = {}       # rule -> {"count": n, "floor": m, "what": text}
         self.functions = set()
         self.call_sites = 0
@@ -37,11 +38,16 @@ class Report:
         self.extra = {}
 
     # ---------------------------------------------------------------- recording
+    def _uniq(self, rule, key):
+        n = self._seen.get((rule, key), 0) + 1
+        self._seen[(rule, key)] = n
+        return key if n == 1 else "%s#%d" % (key, n)
+
     def ok(self, rule, key, msg, span=None, nontrivial=True, detail=None):
-        self.instances.append(Instance(rule, key, True, msg, span, nontrivial, detail))
+        self.instances.append(Instance(rule, self._uniq(rule, key), True, msg, span, nontrivial, detail))
 
     def bad(self, rule, key, msg, span=None, detail=None):
-        self.instances.append(Instance(rule, key, False, msg, span, True, detail))
+        self.instances.append(Instance(rule, self._uniq(rule, key), False, msg, span, True, detail))
 
     def check(self, rule, key, cond, msg_ok, msg_bad=None, span=None, nontrivial=True, detail=None):
         if cond:
